@@ -690,3 +690,43 @@ func Neighbour(t *rapid.T, lit string, label string) string {
 		return mant + exp
 	}
 }
+
+// Bulk draws a wide object (34-90 members, at the root or one level down) and
+// a long patch that takes most of its members away again (removes, a few moves
+// to new names, a few adds), plus the merge patch that does the same with
+// nulls. Thresholds of the kind "shrink the key list when it is a quarter
+// full" are crossed only by such bulk edits of one object in one call.
+func Bulk(t *rapid.T) (doc *ref.V, ops []ref.Op, merge *ref.V) {
+	n := Uniform(t, 34, 90, "bulkn")
+	wide := ref.Obj()
+	for i := 0; i < n; i++ {
+		wide.Set(fmt.Sprintf("k%02d", i), ref.Num(fmt.Sprint(i)))
+	}
+	pre := ""
+	doc = wide
+	if rapid.Bool().Draw(t, "bulknested") {
+		doc = ref.ObjOf("head", ref.Num("1.0"), "w", wide, "tail", ref.Str("t"))
+		pre = "/w"
+	}
+	k := Uniform(t, n/2, n-1, "bulkk")
+	order := rapid.Permutation(wide.Keys).Draw(t, "bulkorder")[:k]
+	merge = ref.Obj()
+	mw := merge
+	if pre != "" {
+		mw = ref.Obj()
+		merge.Set("w", mw)
+	}
+	for i, name := range order {
+		switch {
+		case i%11 == 5:
+			ops = append(ops, ref.Op{Op: "move", From: pre + "/" + name, Path: pre + "/moved" + name})
+		case i%13 == 7:
+			ops = append(ops, ref.Op{Op: "add", Path: pre + "/new" + name, Value: ref.Str("n")}, ref.Op{Op: "remove", Path: pre + "/" + name})
+		default:
+			ops = append(ops, ref.Op{Op: "remove", Path: pre + "/" + name})
+		}
+		mw.Set(name, ref.Null())
+	}
+	mw.Set("added", ref.Bool(true))
+	return doc, ops, merge
+}
